@@ -1634,6 +1634,27 @@ def first_token_invariant_is_enforced(prog, rep, R):
             gave_up += 1
         if end is not None:
             reached += 1
+    # the prologue may be a helper whose Err is `?`-propagated before the root decision is built: its own paths are read the same way
+    from util import question_propagated
+    stop_bb = next(iter(stop))
+    for c in b.calls():
+        hb = prog.body(norm(c.t.get("resolved") or c.callee or ""))
+        if hb is None or not hb.npath.startswith(OLF) or hb.loops() or "Result<" not in hb.locals[0]["ty"] or not b.dominates(c.bb, stop_bb) or not question_propagated(b, c):
+            continue
+        try:
+            th = Table(prog, hb, inline=0, max_paths=20000)
+        except TooComplex:
+            continue
+        from util import enum_variants_mentioned
+        consts = {v for _, v in enum_variants_mentioned(hb)}
+        for cons, res in th.rows:
+            if res is None or not render(res).startswith("Err("):
+                continue
+            by_match = any(c2[0] == "is" and "get_formatting_invariant(arg1,0," in str(c2[1]) and c2[2] == "MustBreak" for c2 in cons)
+            # `invariant == Some(MustBreak)`: equality with a promoted constant of the helper that names the variant
+            by_eq = any(c2[0] == "cond" and str(c2[1]).startswith("eq(get_formatting_invariant(arg1,0,") and "promoted[" in str(c2[1]) and c2[2] != 0 for c2 in cons) and "MustBreak" in consts
+            if by_match or by_eq:
+                gave_up += 1
     rep.check(gave_up >= 1 and reached >= 1, R, "first-token-MustBreak-can-give-up",
               "find_optimal_solution no longer gives up when the first token of the line must start a line and the first decision continues it (no Err exit decided by "
               "`get_formatting_invariant(0, line) is MustBreak` before the root decision): under ContinueAll a second or later child line that follows a `//` comment is continued, the "
